@@ -23,7 +23,8 @@ PID = "C13"
 RULE = ("one case = (map pipeline | plain DAG) x execution kind (pipeline(...), run(full_output), map sequential, "
         "SimExecutor thread / process, patched default pool, map_async) x seeded schedule; every (function, "
         "invocation) of the reference call log is injected as the single failing call with a rotating exception type "
-        "(ValueError('m'), KeyError('k'), ZeroDivisionError(), RuntimeError(), picklable CustomError(7,'detail')); "
+        "(ValueError('m'), KeyError('k'), ZeroDivisionError(), RuntimeError(), picklable CustomError(7,'detail'), keyword-only "
+        "KwOnlyError, FileNotFoundError(2, ...), StopIteration, TimeoutError); several functions may share one __name__; "
         "two-failure plans (more in thorough) and plans in which the user code raises one shared exception object from "
         "several invocations; functions may run under profile=True (real ResourceProfiler thread; every case ends with a census "
         "of stray non-daemon threads) and about one case in eight runs as a multiprocessing child "
